@@ -1,4 +1,5 @@
 """C17 -- String behaves as an ideal byte string across its small-buffer boundary (util/String.h, util/String.cpp)."""
+import struct
 import vlib
 
 NOLIM = 4294967295
@@ -65,13 +66,28 @@ def ch(rng):
 
 
 MUT = ["sc", "asc", "sf", "ass", "+s", "+c", "+h", "ic", "pc", "ac", "cl", "cf", "pa", "sh", "tc", "tt", "sw", "-h", "-s", "-c",
-       "rv", "rc", "rs", "uf", "set", "<<i", "<<b", "++", "--"]
+       "rv", "rc", "rs", "uf", "set", "<<i", "<<b", "++", "--", "rm"]
 # operations whose level-1 model is exact for Strings with embedded NULs (F9): length-based or C-string-view-based memmoves only
 NUL_OPS = ["asc", "+h", "+h", "set", "+s", "+c", "sc", "sf", "ic", "pc", "ac", "tc", "tt", "cl", "cf", "pa", "sh", "fl", "cp", "sub", "rv", "at", "ass", "uf"]
 QRY = ["at", "ioh", "ios", "ioc", "lih", "lis1", "lis", "cnh", "cns", "sws", "ews", "swh", "ewh", "swsi", "ewsi", "cmp", "cmpi",
        "eqi", "iosi", "lisi", "iohi", "lihi", "pns", "swn", "fl", "eqh", "eqhi", "swhi", "ewhi", "dist", "ncmp", "ncmpi"]
 PRO = ["cp", "cpp", "sub", "suba", "subu", "wis", "wps", "was", "wih", "wph", "wah", "pad", "lo", "up", "mx", "tr", "wrc", "wrs",
-       "args", "argi", "wsf", "wpf", "wosf", "wopf", "wosh", "woph", "wons", "pls", "wsfh", "wpfh", "wosfi", "wopfi", "woshi", "wophi", "wiw", "waw", "wpw", "ind", "esc", "argl", "argu", "argul", "argh", "argc", "argb", "plh", "hpl", "cpl", "mns", "mnh"]
+       "args", "argi", "wsf", "wpf", "wosf", "wopf", "wosh", "woph", "wons", "pls", "wsfh", "wpfh", "wosfi", "wopfi", "woshi", "wophi", "wiw", "waw", "wpw", "ind", "esc", "argl", "argu", "argul", "argh", "argc", "argb", "plh", "hpl", "cpl", "mns", "mnh", "wrm", "argd", "argf"]
+
+
+def float_case(rng, name):
+    """Arg(double/float, minDigits, maxDigits): the case carries the IEEE bits and the text printf must produce"""
+    x = rng.choice([0.0, 1.0, -1.0, 0.5, -0.125, 3.75, 100.0, 1234567.875, 1e15, 0.1, 2.5e-7, 123.456, -99.995, 65536.0, 1e22,
+                    rng.randint(-10**6, 10**6) / 64.0, rng.randint(0, 10**9) / 1024.0])
+    if name == "argf":
+        x = struct.unpack("<f", struct.pack("<f", x))[0]
+        bits = "%08x" % struct.unpack("<I", struct.pack("<f", x))[0]
+    else:
+        bits = "%016x" % struct.unpack("<Q", struct.pack("<d", x))[0]
+    mx = rng.choice([NOLIM, NOLIM, 0, 1, 2, 3, 6, 10, 100, 150])
+    mn = rng.choice([0, 0, 1, 2, 3, 8])
+    text = ("%f" % x) if mx == NOLIM else ("%.*f" % (min(mx, 100), x))
+    return "%s:%s:%d:%d:%s" % (name, bits, mn, mx, hx(text[:255].encode()))
 
 
 def gen_op(rng, name, ln, alias=0.2):
@@ -103,6 +119,10 @@ def gen_op(rng, name, ln, alias=0.2):
     if name == "rc":   return "rc:%d:%d:%d:%d" % (ch(rng), ch(rng), cnt(rng), rng.choice([0, 0, 0, 1, ln // 2, ln, NOLIM])), ln
     if name == "rs":   return "rs:%s:%s:%d:%d" % (A(needle(rng)), A(rbytes(rng, rng.choice([0, 1, 2, 3, 6]))), cnt(rng), rng.choice([0, 0, 0, 1, ln // 2, ln, NOLIM])), ln + 3
     if name == "set":  return "set:%d:%d" % (rng.choice([0, 1, max(0, ln - 1), ln // 2, ln]), ch(rng)), ln
+    if name in ("rm", "wrm"):
+        keys = rng.sample(["61", "62", "6162", "6161", "616162", "61626163", "31", "32", "20", "25", "4142", "6261", "2d2d", "7a", ""], rng.choice([0, 1, 1, 2, 2, 3, 4]))
+        ps = ",".join("%s=%s" % (k, rng.choice(["", "78", "7879", "61", "62", "6161", "32", "33", rbytes(rng, rng.choice([3, 8, 17]), 0.0)])) for k in keys)
+        return "%s:%s:%d" % (name, ps, cnt(rng)), ln + 3
     if name == "<<i":  return "<<i:%d" % rng.choice([0, 7, -1, 42, 123456789, -2147483648, 2147483647]), ln + 3
     if name == "<<b":  return "<<b:%d" % rng.randint(0, 1), ln + 5
     if name == "++":   return "++", ln + 1
@@ -149,6 +169,7 @@ def gen_op(rng, name, ln, alias=0.2):
     if name == "cpl":  return "cpl:%s" % rbytes(rng, grow), ln
     if name == "mns":  return "mns:%s" % A(needle(rng)), ln
     if name == "mnh":  return "mnh:%d" % ch(rng), ln
+    if name in ("argd", "argf"): return float_case(rng, name), ln
     if name == "argl": return "argl:%d" % rng.choice([0, -1, 4611686018427387903, -4611686018427387903, 4294967296, 1234567890123]), ln
     if name == "argu": return "argu:%d" % rng.choice([0, 1, 4294967295, 2147483648, 77]), ln
     if name == "argul": return "argul:%d" % rng.choice([0, 4294967296, 4611686018427387903, 77]), ln
@@ -263,6 +284,18 @@ def directed_boundary():
     for L in (0, 1, 14, 15, 16, 17):
         lit = "6162636465666768696a6b6c6d6e6f707172"[: 2 * L]
         out.append(("boundary", "c17|asc:%s;plh:33;=plh:33;hpl:33;=hpl:34;cpl:78;cpl:;=cpl:7879;mns:@;mns:62;mnh:97;=mns:63;=mnh:100;fl" % lit))
+    # simultaneous replacement: keys whose own prefix repeats (the occurrence starts inside a failed partial match), chains, priorities
+    for lit, ps in (("61616162", "616162=58"), ("616261626163", "61626163=59"), ("312c322c332c34", "31=32,32=33"), ("616161", "6161=78,61=79"),
+                    ("616161", "61=79,6161=78"), ("6162636465666768696a6b6c6d6e6f70", "61=6161616161,70=7070707070"), ("61626162", "6162=,62=7a"),
+                    ("", "61=62"), ("6161", ""), ("616261", "=78,61=")):
+        for m in (NOLIM, 0, 1, 2):
+            out.append(("boundary", "c17|asc:%s;wrm:%s:%d;rm:%s:%d;fl;pa:40;rm:%s:%d;fl" % (lit, ps, m, ps, m, ps, m)))
+    # Arg(double/float): trailing zeros, bare point, padding to minDigits, printf output cut at 255 characters, max capped at 100
+    for x in (0.0, 1.0, -2.5, 0.125, 1e300, 1e-300, 123456789.0, 99.99999999, 1e15 + 0.5):
+        for mn, mx in ((0, NOLIM), (3, NOLIM), (0, 0), (2, 0), (0, 2), (4, 2), (0, 100), (0, 150), (8, 1)):
+            bits = "%016x" % struct.unpack("<Q", struct.pack("<d", x))[0]
+            text = ("%f" % x) if mx == NOLIM else ("%.*f" % (min(mx, 100), x))
+            out.append(("boundary", "c17|asc:783d2531;argd:%s:%d:%d:%s;=argd:%s:%d:%d:%s;fl" % (bits, mn, mx, hx(text[:255].encode()), bits, mn, mx, hx(text[:255].encode()))))
     # words: separators already present / absent on either side, insertion at the ends and in the middle
     for L in (0, 1, 5, 14, 15, 16, 20):
         lit = "6162206364206566206768206970206a6b206c"[: 2 * L]
@@ -332,8 +365,10 @@ class CHECK(vlib.Check):
                 "strstr/strcmp/strcasecmp underneath): IndexOf/LastIndexOf/Contains/GetNumInstancesOf/StartsWith/EndsWith/CompareTo/Equals/"
                 "comparison operators and their IgnoreCase forms, CharAt, ParseNumericSuffix, StartsWithNumber, GetDistanceTo, "
                 "NumericAwareCompareTo(+IgnoreCase). Harness oracles only: HashCode/HashCode64/CalculateChecksum (equal across storage modes), "
-                "IsEmpty/HasChars/GetLastValidIndex/IsIndexValid/FlattenedSize. Not modelled: Replace/WithReplacements(Hashtable), Arg(float/double/"
-                "pointer/Point/Rect), operator<<(float), platform-specific conversions.")
+                "IsEmpty/HasChars/GetLastValidIndex/IsIndexValid/FlattenedSize. Not modelled: Arg(float/double, fmt), Arg("
+                "pointer/Point/Rect), operator<<(float), platform-specific conversions.  Replace/WithReplacements(Hashtable) and "
+                "Arg(double/float, min, max) are modelled code-shaped; for the latter the text printf produces is an external input "
+                "(the case carries it, the harness checks this libc prints the same).")
     premises = ["memory allocation succeeds (muscleAlloc/muscleRealloc never return NULL in the model)",
                 "strings are NUL-free (F9: a String with an embedded NUL is outside the domain of the refinement theorems; the stream 'nul' corresponds such Strings against level 1 only, and C17_nul_string_truncates states the truncation); buffer requests up to 2^30 bytes (LIM)",
                 "memory safety and object lifetime of the C++ are observed by ASan/UBSan in the harness only",
